@@ -431,6 +431,10 @@ func (w *world) exec1(op string) string {
 	rd := func(i int) ds.ReadableSet[E] {
 		if ro {
 			w.r.Count("receiver:readonly-view")
+			// the view taken when the register was filled is a live view: it shows the set's present contents
+			if v, cur := w.view[i].ToSlice(), w.set[i].ToSlice(); !sameList(v, cur) || w.view[i].Size() != w.set[i].Size() {
+				w.fail("algebra", "Set.ReadOnly", fmt.Sprintf("the read-only view shows %v, the set holds %v", v, cur))
+			}
 
 			return w.view[i]
 		}
@@ -564,6 +568,19 @@ func (w *world) exec1(op string) string {
 		if got != w.omO.kvs() {
 			w.fail("algebra", "OrderedMap.Clone", fmt.Sprintf("Clone iterates %s, original %s", got, w.omO.kvs()))
 		}
+		// a clone is a copy: neither a new key nor an overwritten value shows in the original
+		c.Set(999, 1)
+		if hk, hv, hok := w.om.Head(); hok {
+			c.Set(hk, hv+1)
+			if v, _ := w.om.Get(hk); v != hv {
+				w.fail("algebra", "OrderedMap.Clone/aliasing", fmt.Sprintf("overwriting key %d in the clone changed the original's value to %d", hk, v))
+			}
+			c.Set(hk, hv)
+		}
+		if w.om.Has(999) || w.om.Size() == c.Size() {
+			w.fail("algebra", "OrderedMap.Clone/aliasing", "a key set in the clone shows in the original")
+		}
+		c.Delete(999)
 
 		return fmt.Sprintf("%s n=%d", got, c.Size())
 	case "mwalk":
@@ -902,6 +919,12 @@ func (w *world) exec1(op string) string {
 		if !sameList(c.ToSlice(), s.ToSlice()) {
 			w.fail("algebra", "Set.Clone", fmt.Sprintf("Clone of %v = %v", s.ToSlice(), c.ToSlice()))
 		}
+		// a clone is a copy: writing to it must not show in the original (probe element outside the universe, removed again)
+		c.Add(999)
+		if s.Has(999) || s.Size() == c.Size() {
+			w.fail("algebra", "Set.Clone/aliasing", fmt.Sprintf("an element added to the clone of %v shows in the original", s.ToSlice()))
+		}
+		c.Delete(999)
 		w.set[num(2)] = c
 		w.view[num(2)] = c.ReadOnly()
 
